@@ -21,7 +21,7 @@ META = {
 
 VALID = ('4c', '8.dd#L', '2r', '4c 4e', '=1', '*clefG2', '.', '16qqE-J')
 # malformed kinds: unknown character (lexer error), wrong order (parser error), truncated token, valid token + garbage
-MALFORMED = ('4zz', '4c§', 'c4', '4', '#', '4c4', '*clef', '=x', '%%', '[[[', '4c 4', '4c §', '*M4/', '8.')
+MALFORMED = ('4zz', '4c§', 'c4', '4', '#', '4c4', '*clef', '=x', '%%', '[[[', '4c 4', '4c §', '*M4/', '8.', '4rP', 'rMT')
 
 POOL = VALID + MALFORMED
 
@@ -73,8 +73,9 @@ DOCS = (
     [['**kern', '**text'], ['*clefG2', '*'], ['=1', '=1'], ['4c', 'la'], ['4d', 'li'], [], ['!! comment'], ['8e 8g', '.'], ['=2', '=2'], ['2r', 'lu'], ['==', '=='], ['*-', '*-']],
     [['**kern', '**kern', '**dynam'], ['4c', '4e', 'f'], [], [], ['4d', '4f', 'p'], ['*^', '*', '*'], ['4g', '4a', '4b', '.'], ['*v', '*v', '*', '*'], ['2cc', '2dd', 'mf'], ['*-', '*-', '*-']],
     [['!!!COM: x'], ['**kern'], ['4c'], ['4d'], ['4e'], ['4f'], ['*-']],
+    [['**root', '**kern', '**text'], ['C', '4c', 'la'], ['=1', '=1', '=1'], ['G', '4d', 'li'], ['4A', '4e', 'lu'], ['*-', '*-', '*-']],
 )
-KERN_BAD = ('4zz', '4c§', '%%', '4c 4', 'c4z', '', '4d ', ' 4e')     # '' = a cell truncated to nothing (two adjacent TABs)     # malformed in a **kern spine (raise on a fresh importer on the pinned tree)
+KERN_BAD = ('4zz', '4c§', '%%', '4c 4', 'c4z', '', '4d ', ' 4e', '4rP', '8r 8rK', 'rMT')     # '' = a cell truncated to nothing (two adjacent TABs)     # malformed in a **kern spine (raise on a fresh importer on the pinned tree)
 
 
 @native
@@ -92,7 +93,7 @@ def _data_cells(di):
             if di == 1:
                 kernish = (c < 2) if len(row) == 3 else (c < 3)
             else:
-                kernish = heads[c] == '**kern'
+                kernish = heads[c] in ('**kern', '**root')       # **root cells are parsed with the kern grammar and report errors like **kern
             if kernish:
                 out.append((r, c))
     return out
@@ -188,12 +189,14 @@ def ob_b2(s: str, blank: int, col: int, second: bool) -> bool:
 
     class _Imp:
         def import_token(self, text):
+            stubs.used()
             if text is bad:
                 raise Exception('stub parser: syntax error')
             return kp.KernSpineImporter().import_token(text)
     with stubs.stub_importers(lambda header: _Imp()):
         imp = Importer()
         doc = imp.run(rows)
+    stubs.require_used()
     exp_lines = [r + 1] + ([r + 2] if second else [])
     check([e.line for e in imp.errors] == exp_lines, lambda: f'error lines {[e.line for e in imp.errors]}, expected {exp_lines}')
     for e in imp.errors:
@@ -244,20 +247,20 @@ def _c_body(t, g):
 
 OBLIGATIONS = [
     Ob(id='C12.a', fn=ob_a, title='outcome for a cell never depends on which cells the spine importer parsed before',
-       shard_of=lambda h0, h1, h2, h3, n: h0 + 22 * h1, shards={'quick': 16, 'thorough': 16}, budget_s={'quick': 170, 'thorough': 2400},
+       shard_of=lambda h0, h1, h2, h3, n: h0 + 24 * h1, shards={'quick': 16, 'thorough': 16}, budget_s={'quick': 170, 'thorough': 2400},
        witnesses=[{'h0': 8, 'h1': 0, 'h2': 0, 'h3': 0, 'n': 2}], min_confirmed=2000,
-       enumerated='history of 2..3 (quick) / 2..4 (thorough) cell texts from a pool of 8 valid and 14 malformed kinds',
-       bounds={'quick': 'all 22^2 + 22^3 histories', 'thorough': '+ 22^4'}),
+       enumerated='history of 2..3 (quick) / 2..4 (thorough) cell texts from a pool of 8 valid and 16 malformed kinds',
+       bounds={'quick': 'all 24^2 + 24^3 histories', 'thorough': '+ 24^4'}),
     Ob(id='C12.b', fn=ob_b, title='documents x damage masks: one error per malformed cell with its line, other tokens untouched, verbatim export',
        shard_of=lambda d, mask, bad: mask, shards={'quick': 8, 'thorough': 16}, budget_s={'quick': 150, 'thorough': 1200},
        witnesses=[{'d': 0, 'mask': 5, 'bad': 0}], min_confirmed=300, enumerated='document, damage mask over the **kern data cells, malformed-kind rotation',
-       bounds={'quick': '3 documents (blank lines, global comments, split/join, non-kern spines) x every subset of the first 6 data cells x 8 malformed kinds (incl. the empty cell and cells with a blank at either end)',
+       bounds={'quick': '4 documents (blank lines, global comments, split/join, non-kern spines) x every subset of the first 6 data cells x 11 malformed kinds (incl. the empty cell, cells with a blank at either end, rests with note-only signs); a **root spine',
                'thorough': 'first 8 data cells'}),
     Ob(id='C12.b2', fn=ob_b2, title='stub tier: ANY rejected text is wrapped once, reported with its line, exported verbatim',
        budget_s={'quick': 170, 'thorough': 1800}, per_path_s=150.0, shard_of=lambda s, blank, col, second: blank + 3 * col + 6 * (1 if second else 0), shards={'quick': 12, 'thorough': 12},
        witnesses=[{'s': '4zz', 'blank': 1, 'col': 0, 'second': True}], min_confirmed=12,
        symbolic='malformed cell text (arbitrary string)', enumerated='blank lines before it (0..2), column, second occurrence',
-       stubs=['spine importer that raises for the symbolic cell and delegates every other cell to the real KernSpineImporter'],
+       stub_optional=True, stubs=['spine importer that raises for the symbolic cell and delegates every other cell to the real KernSpineImporter'],
        assumptions=['text does not start with * or ! (other line classes), contains no TAB/CR/LF and none of the two separator characters'],
        bounds={'quick': 'text 1..4 chars', 'thorough': 'text 1..7 chars'}),
     Ob(id='C12.c', fn=ob_c, title='a cell is never silently shortened: token + garbage either raises or is fully accounted for',
